@@ -292,7 +292,7 @@ Ltac redS := unfold potentialOneLoopThermal;
   repeat (cbn [EImaginaryOption_eq_dec EImaginaryOption_rec EImaginaryOption_rect sumbool_rec
                sumbool_rect map existsb zipR sumR fst snd Jb Jf eS orb andb];
           try decide1).
-Ltac some := redS; eexists; split; [reflexivity | interval with (i_prec 100)].
+Ltac some := redS; eexists; split; [reflexivity | unfold SMALL_NUMBER; interval with (i_prec 100)].
 Ltac none := redS; reflexivity.
 """
 
@@ -475,7 +475,7 @@ def run(ctx):
     have = {f: os.path.exists(os.path.join(ctx.bdir, f.replace(".v", ".vo"))) for f in extra}
     files = []
     if have.get("Integrands.v"):
-        rows = integrand_cases(ctx, rng, ctx.n(12, 80))
+        rows = integrand_cases(ctx, rng, ctx.n(12, 120))
         per = 24
         for k in range(0, len(rows), per):
             files.append(("integrands_%d" % (k // per), ctx.write(
@@ -490,7 +490,7 @@ def run(ctx):
                 len(wrows[k:k + per])))
         ctx.sample(dict(wrapper=[(r[0], str(r[1]), r[2], r[3]) for r in wrows[:2]]))
     if have.get("ThermalSumGen.v"):
-        srows = sum_cases(ctx, rng, ctx.n(16, 120))
+        srows = sum_cases(ctx, rng, ctx.n(16, 200))
         per = 8
         for k in range(0, len(srows), per):
             files.append(("sum_%d" % (k // per), ctx.write(
@@ -560,7 +560,7 @@ def direct(ctx, rng, D):
     # (i) integrands pointwise
     check_integrands_direct(ctx, rng, ctx.n(400, 4000))
     # (ii) direct integrals vs the defining integral, negative arguments beyond the table too
-    nneg, npos = ctx.n(40, 400), ctx.n(12, 100)
+    nneg, npos = ctx.n(40, 1500), ctx.n(12, 300)
     for tag, (kind, obj) in objs.items():
         xs = [-rng.uniform(0.01, 100.0) for _ in range(nneg)] + \
              [-20.5, -39.0, -41.0, -60.0, -100.0] + \
@@ -690,24 +690,51 @@ def direct(ctx, rng, D):
     direct_pot = make_pot(Integrals(), EImaginaryOption.PRINCIPAL_PART)
     table_pot = make_pot(D, EImaginaryOption.PRINCIPAL_PART)
     for _ in range(ctx.n(6, 40)):
-        nb, nf = rng.randint(0, 30), rng.randint(0, 90)
         T = rng.uniform(0.5, 500.0)
-        bos = (np.zeros(2), np.array([nb, 0.0]), np.full(2, 1.5), np.full(2, 100.0))
-        fer = (np.zeros(1), np.array([float(nf)]), np.full(1, 1.5), np.full(1, 100.0))
+        kb, kf = rng.randint(1, 6), rng.randint(1, 4)
+        dofb = [float(rng.randint(0, 12)) for _ in range(kb)]
+        doff = [float(rng.randint(0, 40)) for _ in range(kf)]
+        nb, nf = sum(dofb), sum(doff)
+        bos = (np.zeros(kb), np.array(dofb), np.full(kb, 1.5), np.full(kb, 100.0))
+        fer = (np.zeros(kf), np.array(doff), np.full(kf, 1.5), np.full(kf, 100.0))
         want = -(math.pi ** 2 / 90) * (nb + 7 / 8 * nf) * T ** 4
-        ctx.count("stefan_boltzmann", dict(nb=nb, nf=nf, T=T))
+        ctx.count("stefan_boltzmann", dict(dofb=dofb, doff=doff, T=T))
         got = float(direct_pot.potentialOneLoopThermal(bos, fer, T))
         if abs(got - want) > 1e-9 * abs(want) + 1e-300:
             ctx.fail_input("massless content nb=%d nf=%d T=%r: V = %r, Stefan-Boltzmann %r" % (
-                nb, nf, T, got, want), dict(kind="sb", nb=nb, nf=nf, T=T, got=got, want=want),
+                nb, nf, T, got, want), dict(kind="sb", dofb=dofb, doff=doff, T=T, got=got,
+                                            want=want),
                 key="stefan-boltzmann")
         # the shipped tables at x = 0 sit on the x^{3/2} non-analyticity: 2e-4 relative
         gott = float(table_pot.potentialOneLoopThermal(bos, fer, T))
         if abs(gott - want) > 5e-4 * abs(want) + 1e-300:
             ctx.fail_input("massless content nb=%d nf=%d T=%r on the shipped tables: V = %r, "
                            "Stefan-Boltzmann %r" % (nb, nf, T, gott, want),
-                           dict(kind="sb_table", nb=nb, nf=nf, T=T, got=gott, want=want),
+                           dict(kind="sb_table", dofb=dofb, doff=doff, T=T, got=gott,
+                                want=want),
                            key="stefan-boltzmann-table")
+    # generic spectra: V = T^4/(2 pi^2) sum n Re J(m^2/T^2) with J from the independent quadrature
+    for _ in range(ctx.n(5, 40)):
+        T = rng.uniform(0.5, 300.0)
+        kb, kf = rng.randint(1, 5), rng.randint(1, 3)
+        xb = [rng.choice([0.0, rng.uniform(0, 60.0), rng.uniform(-9.0, 0.0)]) for _ in range(kb)]
+        xf = [rng.choice([0.0, rng.uniform(0, 60.0)]) for _ in range(kf)]
+        dofb = [float(rng.randint(1, 12)) for _ in range(kb)]
+        doff = [float(rng.randint(1, 40)) for _ in range(kf)]
+        bos = (np.array(xb) * T * T, np.array(dofb), np.full(kb, 1.5), np.full(kb, 100.0))
+        fer = (np.array(xf) * T * T, np.array(doff), np.full(kf, 1.5), np.full(kf, 100.0))
+        want = T ** 4 / (2 * math.pi ** 2) * (
+            sum(n * ref_J("b", x)[0] for n, x in zip(dofb, xb)) +
+            sum(n * ref_J("f", x)[0] for n, x in zip(doff, xf)))
+        got = float(direct_pot.potentialOneLoopThermal(bos, fer, T))
+        ctx.count("thermal_sum_direct", dict(xb=xb, xf=xf, T=T),
+                  bucket="%d bosons %d fermions" % (kb, kf))
+        scale = T ** 4 / (2 * math.pi ** 2) * (sum(dofb) + sum(doff))
+        if abs(got - want) > 1e-7 * scale:
+            ctx.fail_input("V_T for m^2/T^2 = %r (bosons, dof %r), %r (fermions, dof %r), T = %r: "
+                           "%r, expected %r" % (xb, dofb, xf, doff, T, got, want),
+                           dict(kind="sum", xb=xb, xf=xf, dofb=dofb, doff=doff, T=T, got=got,
+                                want=want), key="thermal-sum")
     # heavy masses: |J(x)| <= 1.3 sqrt(pi/2) x^{3/4} e^{-sqrt x} (leading asymptotics) for x >= 50
     for pot, label, xmax in ((direct_pot, "direct", 3000.0), (table_pot, "tables", 999.0)):
         for _ in range(ctx.n(10, 80)):
